@@ -82,7 +82,7 @@ impl Check for C09 {
                     _ => (start..start + len).map(|i| (i, fam.case(tier, i))).collect(),
                 };
                 cx.count(&format!("cases:{}", fam.name()), cases.len() as u64);
-                run::run_cases(cx, cases, fam.merge_runs());
+                run::run_cases(cx, cases);
             }
             Unit::Ops { fam, start, len } => {
                 cx.count(&format!("cases:{}", fam.name()), len);
@@ -153,7 +153,7 @@ impl Check for C09 {
                            "max_binary_operators": tier.pick(3, 5), "max_binary_operators_with_unary": tier.pick(2, 3),
                            "int_literal_digits": 3, "hex_digits": 3,
                            "fstring_text_symbols": ["a", "é", "漢", "𝄞", " ", "{{", "}}", "\\n"],
-                           "fstring_max_text_length_by_interpolations": tier.pick([3, 2, 1], [4, 3, 2]),
+                           "fstring_max_text_length_per_segment": lit::fstr_shapes(tier),
                            "line_continuation_whitespace_run": tier.pick(2, 3),
                            "identifier_characters": tier.pick("all ASCII + up to 64 per (XID_Start, XID_Continue, UTF-8 length) class, as first and as second character", "every Unicode scalar value as first and as second character"),
                            "forbidden_sequence_typings": "all 2^(k+1) for k <= 3; all-int, all-bool and every typing well typed under one of 6 fallback groupings for k >= 4",
